@@ -263,12 +263,14 @@ def attrsRepr (id : Nat) (body : Prog Out) : Prog Out :=
     | none =>
       -- except AttributeError: already_repring = {id(self),}; repr_context.already_repring = …
       .step (fun s => { s with already := some [id] }) (fun _ => withFinally id body)
-    | some a =>
-      if a.contains id then .done (.ok "...")
-      else
-        -- already_repring.add(id(self))
-        .step (fun s => { s with already := some (addId id s.alreadyL) })
-          (fun _ => withFinally id body)
+    | some _ =>
+      -- else: if id(self) in already_repring  (a second look at the set object: its content now)
+      .step (fun s => s) fun s =>
+        if s.alreadyL.contains id then .done (.ok "...")
+        else
+          -- already_repring.add(id(self))
+          .step (fun s => { s with already := some (addId id s.alreadyL) })
+            (fun _ => withFinally id body)
 
 /-- CPython: `Py_ReprEnter` / body / `Py_ReprLeave` (one C call each, so one atomic step each) -/
 def guarded (id : Nat) (dots : String) (body : Prog Out) : Prog Out :=
